@@ -144,6 +144,16 @@ def check_trace(trace, S, only_n=None):
             continue
         if any(o < 0 for o in offsets) or offsets != sorted(offsets):
             viols.append(('split-offsets-not-chronological', f'n_parts={n} offsets={offsets}'))
+        # a part is itself a Transitions object: splitting it once more (into one part) must conserve its events
+        try:
+            for k, p in enumerate(parts):
+                if len(p.events) >= 1 and len(p.trajectory) >= 2 and len(p.diff_trajectory) >= 2:
+                    again = p.split(1)
+                    if impl.event_rows(again[0].events) != impl.event_rows(p.events) or not np.array_equal(np.asarray(again[0].states), np.asarray(p.states)):
+                        viols.append(('resplitting-a-part-loses-or-changes-events', f'n_parts={n} part {k}'))
+                    break
+        except Exception as e:  # noqa: BLE001
+            viols.append((f'resplit-raise-{type(e).__name__}', f'n_parts={n}: {e}'))
         # with a minimal residence the parts of Jumps.split must use the same setting as the whole
         has_shell = any(x != 0 and x % 2 == 0 for row in trace for x in row)
         for m in ((3,) if has_shell and n <= 3 else ()):
